@@ -7,8 +7,8 @@
      los = '-'.join(map(str, legendre_orders))
      pas = '-'.join(repr(float(a)) for a in proj_angles)
    (both injective), so the model keeps the lists themselves as key.  The
-   memory test additionally asks _basis.shape == (2*cols, cols+1) — it does
-   NOT compare the image size itself (see `hazard`).
+   memory test additionally asks _basis.shape == (2*cols, cols+1) and, since
+   fix 8cabaad, _cols == cols.
    An angle is a natural number a standing for a*pi/400.
 
    Symbolic content of a basis: exactly the parameters it was generated for
@@ -55,7 +55,7 @@ Definition fkey_eqb (a b : fkey) : bool := (fst a =? fst b) && key_eqb (snd a) (
 
 Record st := {
   basis : option lcont;
-  kprm : option key;              (* _los, _pas, _radial_step, _clip *)
+  kprm : option (nat * key);      (* _cols, _los, _pas, _radial_step, _clip *)
   gdir : bdglobal;
   dk : disk fkey lcont }.
 
@@ -71,12 +71,12 @@ Inductive op :=
 
 Definition mem_hit (s : st) (cols : nat) (k : key) : option lcont :=
   match basis s, kprm s with
-  | Some c, Some k' =>
-      if (l_rows c =? 2 * cols) && (l_ncols c =? cols + 1) && key_eqb k' k then Some c else None
+  | Some c, Some (kc, k') =>
+      if (l_rows c =? 2 * cols) && (l_ncols c =? cols + 1) && (kc =? cols) && key_eqb k' k then Some c else None
   | _, _ => None
   end.
 
-Definition mk (b : option lcont) (k : option key) (g : bdglobal) (d : disk fkey lcont) : st :=
+Definition mk (b : option lcont) (k : option (nat * key)) (g : bdglobal) (d : disk fkey lcont) : st :=
   {| basis := b; kprm := k; gdir := g; dk := d |}.
 
 (* what linbasex_transform_full does with the basis it got: lstsq needs
@@ -104,9 +104,9 @@ Definition step_call (s : st) (cols : nat) (orders angles : list nat) (step clip
         match di with
         | Some d =>
             if dir_writable d
-            then use (mk (Some want) (Some k) g (put_file fkey_eqb d (cols, k) (FGood want) (dk s))) want cols pol proj
-            else (mk (Some want) (Some k) g (dk s), Raise EOther)
-        | None => use (mk (Some want) (Some k) g (dk s)) want cols pol proj
+            then use (mk (Some want) (Some (cols, k)) g (put_file fkey_eqb d (cols, k) (FGood want) (dk s))) want cols pol proj
+            else (mk (Some want) (Some (cols, k)) g (dk s), Raise EOther)
+        | None => use (mk (Some want) (Some (cols, k)) g (dk s)) want cols pol proj
         end in
       match dir with
       | Some di =>
@@ -115,7 +115,7 @@ Definition step_call (s : st) (cols : nat) (orders angles : list nat) (step clip
           | Some FShape => generate dir                    (* "Cached basis file incompatible." *)
           | Some (FGood c) =>
               if (l_rows c =? proj * cols) && (l_ncols c =? pol * np_count cols step clip)
-              then use (mk (Some c) (Some k) g (dk s)) c cols pol proj
+              then use (mk (Some c) (Some (cols, k)) g (dk s)) c cols pol proj
               else generate dir
           | None => generate dir
           end
@@ -173,9 +173,9 @@ Definition observe (o : op) (s' : st) (r : res lcont) : obs :=
   {| o_code := if is_call o then res_code r else 0;
      o_agree := if is_call o then out_eqv r (fresh o) else true;
      o_fresh_code := if is_call o then res_code (fresh o) else 0;
-     o_los := match kprm s' with Some k => [k_los k] | None => [] end;
-     o_pas := match kprm s' with Some k => [k_pas k] | None => [] end;
-     o_stepclip := match kprm s' with Some k => [k_step k; k_clip k] | None => [] end;
+     o_los := match kprm s' with Some (_, k) => [k_los k] | None => [] end;
+     o_pas := match kprm s' with Some (_, k) => [k_pas k] | None => [] end;
+     o_stepclip := match kprm s' with Some (kc, k) => [k_step k; k_clip k; kc] | None => [] end;
      o_shape := match basis s' with Some c => [l_rows c; l_ncols c] | None => [] end;
      o_gdir := bdglobal_code (gdir s');
      o_files := length (dk s') |}.
@@ -208,22 +208,11 @@ Definition uses_bad_dir (s : st) (bd : bdarg) : bool :=
 Definition lcont_exact (a b : lcont) : bool :=
   l_eqv a b && (l_rows a =? l_rows b) && (l_ncols a =? l_ncols b).
 
-(* assumptions about the environment (writable directories, good files are what
-   a save of their name writes) and ONE remaining exclusion: the memory test
-   compares _basis.shape with (2*cols, cols+1) but not the image size itself,
-   so a cached basis of another image size with the same lists can pass it
-   (needs e.g. 6 angles and 5 orders: (18, 10) for a 3x3 and asked for a 9x9
-   image); the call then raises LinAlgError (finding, see size_test_refuted) *)
-Definition size_confusion (s : st) (cols : nat) (orders angles : list nat) (stp clip : nat) : bool :=
-  match mem_hit s cols (key_of orders angles stp clip) with
-  | Some c => negb (l_cols c =? cols)
-  | None => false
-  end.
-
+(* assumptions about the environment, not defects: writable directories, and
+   good files on disk are what a save of their name writes *)
 Definition hazard (s : st) (o : op) : bool :=
   match o with
-  | Call cols orders angles stp clip bd =>
-      uses_bad_dir s bd || size_confusion s cols orders angles stp clip
+  | Call cols orders angles stp clip bd => uses_bad_dir s bd
   | Seed d k c =>
       match c with
       | FGood x =>
